@@ -27,7 +27,20 @@ fn usage() -> ! {
 
 fn check(prop: &str, tier: &str) -> i32 {
     match prop {
-        "C01" | "C05" | "C07" | "C08" | "C09" | "C20" => {
+        "C07" => {
+            let mut r = Report::new(prop, tier, "model_checking");
+            r.assumptions = vec![
+                "E1: fjall, tokio, scru128 explored through; in-process reopen".into(),
+                "E2: scheduling points are the verif hooks (ctx.unregister, commit.pre/post, append.*)".into(),
+            ];
+            let mut r1 = Report::new(prop, tier, "model_checking");
+            seq::run(prop, tier, &mut r1);
+            let mut r2 = Report::new(prop, tier, "model_checking");
+            e2::run(prop, tier, &mut r2);
+            common::merge_reports(&mut r, vec![("E1-seq", r1), ("E2-sched", r2)]);
+            r.finish()
+        }
+        "C01" | "C05" | "C08" | "C09" | "C20" => {
             let mut r = Report::new(prop, tier, "model_checking");
             r.assumptions = vec![
                 "fjall/lsm-tree, cacache, tokio and scru128 are explored through, not modelled".into(),
